@@ -230,9 +230,12 @@ def _one_d_case(i, rng, tier):
     probes_v += [min(edges0) - 10.0, max(edges0) + 10.0]
     if k == "SparselyBin":
         probes_v = [p for p in probes_v if abs((p - cfg["origin"]) / cfg["bw"]) < 2000]
+    # NaN is filled into the nanflow, which is no bin: bin_entries(xvalues=[nan]) has nothing to report for it;
+    # +-inf go to the outermost bins or flows (not asked of a sparse histogram, whose index saturates there)
+    probes_v.append(float("nan"))
+    if k != "SparselyBin":
+        probes_v += [float("inf"), float("-inf")]
     for x in probes_v:
-        if math.isnan(x) or math.isinf(x):
-            continue
         g = h.copy() if k != "SparselyBin" else h.copy()
         before = _vector(sp, g)
         try:
@@ -270,6 +273,8 @@ def _one_d_case(i, rng, tier):
                 # slack.  Centre- and threshold-based binnings report the very numbers fill compares with: exact.
                 tol_e = 16 * np.finfo(float).eps * max(fin_e) if k in ("Bin", "SparselyBin") else 0.0
                 inside = (lo_e <= x < hi_e) or (tol_e > 0 and (abs(x - lo_e) <= tol_e or abs(x - hi_e) <= tol_e))
+                if math.isinf(x):
+                    inside = (x > 0 and hi_e == x) or (x < 0 and lo_e == x)  # +inf belongs to the bin that reaches up to +inf
                 counters["containment_checks"] = counters.get("containment_checks", 0) + 1
                 if not inside:
                     bad("fill put %r into bin %d, whose reported edges are [%r, %r)" % (x, idx, lo_e, hi_e), probe=S.jsonable(x))
@@ -440,8 +445,11 @@ def _two_d_case(i, rng, tier):
         xlo, xhi, ylo, yhi = 0.0, float(rng.choice([1, 2, 3])), -1.0, float(rng.choice([1, 2]))
         h = hg.Bin(nx, xlo, xhi, qx, hg.Bin(ny, ylo, yhi, qy, hg.Count(), hg.Count(), hg.Count(), hg.Count()), hg.Count(), hg.Count(), hg.Count())
     elif kind == "SparselyBin":
-        bwx, bwy = rng.choice([0.5, 1.0, 0.25]), rng.choice([0.5, 1.0, 2.0])
-        h = hg.SparselyBin(bwx, qx, hg.SparselyBin(bwy, qy, hg.Count(), hg.Count()), hg.Count())
+        # widths and origins also from decimal fractions: n * width + origin is then not exact, and an edge array built
+        # by repeated addition (numpy.arange with a float step) need not have the length the grid has
+        bwx, bwy = rng.choice([0.5, 1.0, 0.25, 0.7, 0.1, 0.3]), rng.choice([0.5, 1.0, 2.0, 0.7, 0.3])
+        ox, oy = rng.choice([0.0, 0.0, 1.0, 0.1, -0.3]), rng.choice([0.0, 0.0, 1.0, 0.1, -0.3])
+        h = hg.SparselyBin(bwx, qx, hg.SparselyBin(bwy, qy, hg.Count(), hg.Count(), oy), hg.Count(), ox)
     else:
         ex = sorted(rng.sample([-1.0, 0.0, 0.5, 1.0, 2.0, 3.5], rng.randint(2, 4)))
         ey = sorted(rng.sample([-1.0, 0.0, 0.5, 1.0, 2.0, 3.5], rng.randint(2, 4)))
